@@ -203,3 +203,103 @@ def c11_mutex(pid, tier, seed):
     return _component(pid, tier, seed, "drv_mutex", "TraceMutex", "AsyncMutex.tla",
                       ["AsyncMutex.cfg", "AsyncMutex.live.cfg"],
                       "async_mutex (spec/AsyncMutex.tla)", "C11_x_MutexCrashed")
+
+
+# ----------------------------------------------------------------------------- C19 hostile broker bytes
+C19_MAP = {"C01_a_SuccessWithoutAck": "C19_c_SuccessWithoutValidAck", "C14_a_SuccessWithoutAck": "C19_c_SuccessWithoutValidAck",
+           "C14_b_CodesDiffer": "C19_c_SuccessWithoutValidAck", "C14_b_CodeCount": "C19_c_SuccessWithoutValidAck",
+           "C14_c_MalformedAckSurfaced": "C19_c_SuccessWithoutValidAck", "C01_b_HandlerArgsDiffer": "C19_c_SuccessWithoutValidAck",
+           "C02_q_RequestNeverCompleted": "C19_d_NoRecoveryAfterHostileBytes", "C05_a_CompletedTwice": "C19_e_CompletedTwice"}
+
+
+def _run_asan(scripts, trace):
+    return vlib.sh([os.path.join(vlib.BIN, "simrun_asan"), scripts, trace], timeout=1800,
+                   env=dict(ASAN_OPTIONS="detect_leaks=0:abort_on_error=0", UBSAN_OPTIONS="print_stacktrace=1:halt_on_error=1"))
+
+
+def _hostile_shard(args):
+    d, idx, part = args
+    sp = os.path.join(d, "scripts_%03d.ndjson" % idx); tp = os.path.join(d, "trace_%03d.ndjson" % idx)
+    with open(sp, "w") as f: f.write("\n".join(part) + "\n")
+    rc, out = _run_asan(sp, tp)
+    crashes = []
+    if rc != 0:
+        # isolate the offending scenarios; the others are re-run together
+        good = []
+        for j, line in enumerate(part):
+            one = os.path.join(d, "one_%03d_%d.ndjson" % (idx, j))
+            with open(one, "w") as f: f.write(line + "\n")
+            rc1, out1 = _run_asan(one, one + ".trace")
+            if rc1 != 0:
+                m = re.search(r"(ERROR: AddressSanitizer[^\n]*|runtime error[^\n]*|terminate[^\n]*)", out1)
+                crashes.append((json.loads(line)["name"], m.group(1) if m else "exit %d" % rc1, one))
+            else:
+                good.append(line); os.remove(one); os.remove(one + ".trace")
+        with open(sp, "w") as f: f.write("\n".join(good) + "\n")
+        rc, out = _run_asan(sp, tp)
+        if rc != 0: return dict(ok=False, err="hostile shard still crashes after isolation: " + out[-1500:])
+    rc2, out2 = vlib.tlc("TraceObserver.tla", "TraceObserver.cfg", env=dict(TRACE=tp), workers=1, timeout=3000, java_opts="-Xmx3g")
+    st = vlib.tlc_stats(out2)
+    if "REJECTED" in out2 or rc2 != 0 or st[0] == 0:
+        return dict(ok=False, err="hostile trace not consumed: " + out2[-2000:])
+    viol = []
+    for line in out2.splitlines():
+        line = line.strip().strip('"')
+        if line.startswith("VIOL "):
+            p = line.split(); viol.append((int(p[1]), int(p[2]), p[3]))
+    m = re.search(r"simrun: (\d+) scenarios, (\d+) events", out)
+    return dict(ok=True, viol=viol, crashes=crashes, states=st[0], scripts=sp, trace=tp,
+                scen=int(m.group(1)) if m else 0, events=int(m.group(2)) if m else 0)
+
+
+def c19_stage(pid, tier, seed):
+    import concurrent.futures as cf, gen
+    os.makedirs(vlib.BIN, exist_ok=True)
+    rc, o = vlib.sh("flock %s/build.lock make -C %s/harness -f asan.mk REPO=%s OUT=%s %s/simrun_asan" % (vlib.WORK, vlib.VERIF, vlib.REPO, vlib.BIN, vlib.BIN), timeout=3000)
+    if rc != 0:
+        log(o[-4000:]); raise CheckError("ASan build of simrun failed")
+    key = "hostile-%s-%s-%s-%s" % (tier, seed, vlib.repo_hash(), vlib.machinery_hash())
+    cpath = os.path.join(vlib.WORK, "cache", key + ".json")
+    if os.path.exists(cpath):
+        with open(cpath) as f: res = json.load(f)
+    else:
+        lines = gen.generate("hostile", seed, 1800 if tier == "quick" else 100000)
+        corpus = os.path.join(vlib.VERIF, "corpus", "hostile.ndjson")
+        if os.path.exists(corpus):
+            with open(corpus) as f: lines += [l.strip() for l in f if l.strip()]
+        d = os.path.join(vlib.WORK, "run", "hostile-%s-%s" % (tier, seed)); shutil.rmtree(d, ignore_errors=True); os.makedirs(d)
+        per = 120
+        jobs = [(d, i, lines[i * per:(i + 1) * per]) for i in range((len(lines) + per - 1) // per)]
+        with cf.ThreadPoolExecutor(max_workers=vlib.NCPU) as ex: outs = list(ex.map(_hostile_shard, jobs))
+        res = dict(items=[], scen=0, events=0, states=0, sigs={}, samples=[json.loads(lines[0]), json.loads(lines[len(lines) // 2])])
+        for o in outs:
+            if not o["ok"]: raise CheckError(o["err"])
+            res["scen"] += o["scen"]; res["events"] += o["events"]; res["states"] += o["states"]
+            for (name, what, one) in o["crashes"]:
+                res["items"].append(("C19_m_MemoryErrorOrCrash", name.split("-")[2], "%s: %s (script %s)" % (name, what, one)))
+            names = {}
+            with open(o["trace"]) as f:
+                cur = None
+                for line in f:
+                    e = json.loads(line)
+                    if e["e"] == "reset":
+                        cur = e["sc"]; names[cur] = e["name"]; res["sigs"][e["name"]] = []
+                    elif e["e"] == "done" and e.get("op") in (10, 11, 12): res["sigs"][names[cur]].append("%d:%s" % (e["op"], e["ec"]))
+                    elif e["e"] == "c_pkt" and e.get("type") == "DISCONNECT": res["sigs"][names[cur]].append("D%d" % e.get("rc", 0))
+                    elif e["e"] == "attempt": res["sigs"][names[cur]].append("A")
+            for (sc, n, cl) in o["viol"]:
+                cl2 = cl if cl.startswith("C19_") else C19_MAP.get(cl)
+                if cl2: res["items"].append((cl2, names.get(sc, "?").split("-")[2] if sc in names else "?", "%s event %d (%s) trace %s" % (names.get(sc), n, cl, o["trace"])))
+        # C19_a: the outcome must not depend on how the byte stream is cut into reads
+        groups = {}
+        for name, sig in res["sigs"].items():
+            base = name.rsplit("-c", 1)[0]
+            groups.setdefault(base, {})[name] = tuple(sig)
+        for base, g in groups.items():
+            if len(set(g.values())) > 1:
+                res["items"].append(("C19_a_OutcomeDependsOnChunking", base.split("-")[2], "%s: %s" % (base, g)))
+        res["sigs"] = len(res["sigs"])
+        with open(cpath, "w") as f: json.dump(res, f)
+    new = report_simple(pid, [tuple(x) for x in res["items"]], lambda cl, cls: "hostile broker bytes (%s mutations): %s" % (cls, cl))
+    return dict(name="C19 hostile broker bytes under ASan/UBSan", states=res["states"], transitions=res["states"], violations=new,
+                vectors=res["scen"], events=res["events"], samples=res["samples"])
